@@ -81,6 +81,12 @@ def constructed_cases(ctx):
     for ax in axes:
         for off, ls in C.disulfide_slides(ax, step=10 if ctx.thorough() else 13, span=2600, start=ctx.seed % 7):
             cases.append((f"disulfide-along-{'xyz'[ax]}+{off}", C.join(ls), []))
+    # bridged cysteines that share a residue number (symmetric inter-chain bridge of a homodimer; residues n / nA)
+    pair, _p, _q = C.disulfide_pair()
+    same = [C.set_resid(ln, num=42) if C.is_atom(ln) else ln for ln in pair]
+    cases.append(("disulfide-same-number-E42-F42", C.join(same), []))
+    twin = [C.set_resid(ln, chain="E", num=42, icode=("A" if ln[21] == "F" else " ")) if C.is_atom(ln) else ln for ln in pair]
+    cases.append(("disulfide-twins-E42-E42A", C.join(twin), []))
     # chain selection and titrate-only on a two-chain construct
     two = no_oxt(a) + [C.TER] + no_oxt(b)
     cases.append(("two-chains -c B", C.join(two), ["-c", "B"]))
